@@ -984,9 +984,18 @@ def P28(m, R):
         L = arg.id
         lp = next((p for p in _parents(call) if isinstance(p, ast.For) and p in list(f.walk())), None)
         scope = list(ast.walk(lp)) if lp is not None else list(f.walk())
+        # execution order = pre-order position in the tree (line numbers do not help: inlined helper code keeps its own)
+        order_ = []
+
+        def pre_(n_):
+            order_.append(n_)
+            for c_ in ast.iter_child_nodes(n_):
+                pre_(c_)
+        pre_(lp if lp is not None else f.node)
+        pos_ = {id(n_): i_ for i_, n_ in enumerate(order_)}
         assigns = [n for n in scope if isinstance(n, (ast.Assign, ast.AnnAssign)) and norm(n.targets[0] if isinstance(n, ast.Assign) else n.target) == L and
-                   n.lineno <= call.lineno]
-        assigns.sort(key=lambda n: (n.lineno, n.col_offset))
+                   pos_.get(id(n), 0) <= pos_.get(id(call), 1 << 30)]
+        assigns.sort(key=lambda n: pos_.get(id(n), 0))
         last = assigns[-1] if assigns else None
         defs = []
         if last is not None and not (isinstance(last.value, (ast.List, ast.Tuple)) and not last.value.elts) and not norm(last.value) == 'list()':
